@@ -288,6 +288,17 @@ def _prog_strategy(tier):
     return proggen.programs(size=14 if tier == "quick" else 24, max_depth=2)
 
 
+def _call_prog_strategy(tier):
+    """Module programs dominated by (row-)polymorphic definitions, calls and function loads."""
+    from vlib import proggen
+
+    return proggen.programs(size=14 if tier == "quick" else 22, max_depth=1, roots=("module",), detached=False, call_bias=True)
+
+
+SUBS.append(
+    Sub("call-handles", check_program_handles, strategy=_call_prog_strategy, nontrivial=lambda c: "call" in c.get("classes", []),
+        classes=lambda c: [x for x in c.get("classes", []) if x in ("call", "load-function", "row-polymorphic-call", "polymorphic-call")], n_quick=120, n_thorough=1000, sample_ok=lambda c: len(c["events"]) <= 10)
+)
 SUBS.append(
     Sub("builder-handles", check_program_handles, strategy=_prog_strategy, nontrivial=lambda c: "multi-output-op" in c.get("classes", []) or len(c["events"]) >= 6,
         classes=lambda c: [x for x in c.get("classes", []) if x in ("multi-output-op", "insert", "call", "load-const", "nested-dfg", "cfg", "conditional", "tail-loop")], n_quick=250, n_thorough=1500,
